@@ -39,7 +39,7 @@ def run (t : Tier) : Emit Unit := do
     let npes ← liftGen (randBelow 4)
     let pesPIDs := (List.range npes).map (0x100 + ·)
     let withTables ← liftGen (chance 3 4)
-    let cfg : StreamCfg := { pesPIDs := pesPIDs, pmtPIDs := if withTables then [0x1000] else [], dvb := i % 2 = 0, unitsPerPID := 2, maxPayload := if i % 7 = 0 then 3000 else 500 }
+    let cfg : StreamCfg := { pesPIDs := pesPIDs, pmtPIDs := if withTables then [0x1000] else [], dvb := i % 2 = 0, unitsPerPID := 2, maxPayload := (if i % 7 = 0 then 3000 else 500), multiPMT := 3 }
     let m ← liftGen (genStream cfg)
     let bs := m.bytes
     emit "C02" (demuxCase bs { view := .perpid } none (some (showPerPID m.expected 0 "eof")) "stream-perpid")
@@ -47,10 +47,23 @@ def run (t : Tier) : Emit Unit := do
   -- PAT / PMT are returned by the call that reads their final packet (no read-ahead), explicit and auto-detected size
   for i in [0:60 * t.scale] do
     let npes ← liftGen (randRange 1 3)
-    let m ← liftGen (genStream { pesPIDs := (List.range npes).map (0x100 + ·), pmtPIDs := [0x1000, 0x1001], dvb := false, unitsPerPID := 2 })
+    let m ← liftGen (genStream { pesPIDs := (List.range npes).map (0x100 + ·), pmtPIDs := [0x1000, 0x1001], dvb := false, unitsPerPID := 2, multiPMT := 3 })
     let bs := m.bytes
     let auto := i % 2 = 1
     let spec := tablePositions m [0, 0x1000, 0x1001] (·.sectionsEnd)
     emit "C02" (demuxCase bs { view := .tablepos, size := if auto then 0 else 188 } none (some spec) "tables-no-readahead")
+
+  -- outside the property's domain (ISO/IEC 13818-1 2.4.4.1): an inner section of a PMT unit starting on the first
+  -- payload byte of a continuation packet; model and implementation are compared, nothing is judged
+  for _ in [0:10 * t.scale] do
+    let ps ← liftGen (patSection [0x1000])
+    let pat ← liftGen (mkPSIUnit 0 [ps])
+    let ss ← liftGen (genList 2 (genSectionOfKind 1 false))
+    let u ← liftGen (mkPSIUnitMulti 0x1000 ss false)
+    let pes ← liftGen (genPESUnit 0x100 300)
+    let units := [pat, u, pes]
+    let per := perPID units
+    let m : StreamModel := { units := units, schedule := (per.map fun (pid, pk, _) => List.replicate pk.length pid).flatten }
+    emit "C02" (demuxCase m.bytes { view := .seq } none none "nonconformant-inner-section-on-packet-edge")
 
 end Astits.DriverC02
